@@ -478,6 +478,24 @@ Definition zrange2 (a b : Z) : list Z := map (fun i => (a + Z.of_nat i)%Z) (seq 
 (* a[i:] (a slice from a Python index to the end), total sum of a matrix *)
 Definition np_from {A} (a : list A) (i : Z) : list A := skipn (pyidx (length a) i) a.
 Definition np_msum (a : list (list Qc)) : Qc := qsum (map qsum a).
+(* sample_mvn_from_precision(Q, mu_part=b): the answer says whether the call raised (VFail) - the block's try/except *)
+Definition draw_mvn (Q : list (list Qc)) (b : list Qc) : gprog val := GDraw (DMvn Q b) (fun v => GRet v).
+(* matrix products of the vector blocks; a matrix is the list of its rows and has D columns (explicit: the list does not
+   know D when there is no row): X @ v, X.transpose(), A @ B, matrix * scalar, Q[np.diag_indices(D)] += v *)
+Definition np_matvec (X : list (list Qc)) (v : list Qc) : list Qc := map (fun r => qsum (zipw Qcmult r v)) X.
+Definition np_transpose (D : nat) (X : list (list Qc)) : list (list Qc) := tab D (fun j => map (fun r => vnth r j) X).
+Definition np_matmul (D : nat) (A B : list (list Qc)) : list (list Qc) :=
+  map (fun a => tab D (fun k => qsum (zipw Qcmult a (map (fun r => vnth r k) B)))) A.
+Definition np_mmuls (A : list (list Qc)) (x : Qc) : list (list Qc) := map (fun r => np_vmuls r x) A.
+Definition np_add_diag (Q : list (list Qc)) (v : list Qc) : list (list Qc) :=
+  tab (length Q) (fun j => tab (length (rnth Q j)) (fun k => vnth (rnth Q j) k + (if Nat.eqb j k then vnth v j else 0))).
+(* np.diag_indices(n), and Q[dix] += v: v[j] is added to Q[j][j] for j < n *)
+Inductive diag_indices := DiagIndices (n : Z).
+Definition np_add_diag_at (ix : diag_indices) (Q : list (list Qc)) (v : list Qc) : list (list Qc) :=
+  match ix with DiagIndices n =>
+    tab (length Q) (fun j => tab (length (rnth Q j)) (fun k =>
+      vnth (rnth Q j) k + (if Nat.eqb j k && (Z.of_nat j <? n)%Z then vnth v j else 0)))
+  end.
 (* the sweep for an arbitrary behaviour [step] of the block methods ([run_blocks g d orc] is [run_blocks_with (step_prog g d orc)]) *)
 Definition run_blocks_with (step : blk -> st -> prog) (bs : list blk) (s : st) : prog :=
   fold_left (fun p b => bind p (step b)) bs (Ret s).
